@@ -24,6 +24,7 @@ type compiler struct {
 	scopecnt      int
 	globalfuncs   int
 	globalvars    int
+	importing     []string
 	regexpCache   sync.Map
 }
 
@@ -182,6 +183,13 @@ func (c *compiler) compileImport(i *Import) error {
 			return err
 		}
 	}
+	// the same path with the same search path is the same module
+	key := fmt.Sprint(path, i.Meta.ToValue()["search"])
+	if slices.Contains(c.importing, key) {
+		return fmt.Errorf("module imports itself: %q", path)
+	}
+	c.importing = append(c.importing, key)
+	defer func() { c.importing = c.importing[:len(c.importing)-1] }()
 	c.appendCodeInfo("module " + path)
 	if err = c.compileModule(q, alias); err != nil {
 		return err
